@@ -50,7 +50,9 @@ Definition check (acc : kmap) (b : builder) : list bool :=
     [ store_ok_b E; b_count b =? top_addr E + 1; len (body b) =? b_count b;
       b_last_addr b =? (match E with [] => NONE_ADDRESS | _ => top_addr E end);
       reg_ok_b E (b_reg b); shape_b (b_stack b) (lastkey acc); forallb (unf_ok_b E) (b_stack b);
-      W_b 0 (b_stack b); forallb (dom_b (b_stack b)) (addrs E);
+      W_b 0 (b_stack b);
+      match last_opt (b_stack b) with Some u => match n_trans (u_node u) with [] => true | _ => false end | None => false end;
+      forallb (dom_b (b_stack b)) (addrs E);
       list_eqb kv_eqb (Lstk (elang E) (b_stack b) []) (rev acc); b_len b =? len acc;
       match b_last b, acc with None, [] => true | Some k, (k', _) :: _ => list_eqb N.eqb k k' | _, _ => false end ]
   end.
